@@ -114,6 +114,14 @@ func regexAtom(t *Term) (string, *Term, bool) {
 func acceptFormula(p *Prog, fn *ssa.Function) *Formula {
 	o := NewOrigin(p, fn)
 	fa := NewFacts(p, fn, o)
+	// a validator applied to one field stays an atom (it is summarised into length × language by classifyMsgAtom); any other
+	// error-returning helper (an extracted group of checks) is replaced by its own accept condition
+	fa.ErrExpand = func(atom *Formula) int {
+		if _, _, ok := classifyMsgAtom(p, atom.Term); ok {
+			return 1
+		}
+		return 2
+	}
 	res := fn.Signature.Results()
 	isBool := res.Len() == 1 && types.Identical(res.At(0).Type().Underlying(), types.Typ[types.Bool])
 	var disj []*Formula
@@ -123,8 +131,25 @@ func acceptFormula(p *Prog, fn *ssa.Function) *Formula {
 			// path-sensitive value: use the summary machinery
 			continue
 		}
-		if isNilConst(ret.Results[len(ret.Results)-1]) {
+		ev := unspill(ret.Results[len(ret.Results)-1])
+		if isNilConst(ev) {
 			disj = append(disj, F)
+			continue
+		}
+		// pass-through: `return helper(...)` accepts when the helper does (not a `return err` under err != nil)
+		isSuccess := false
+		for _, sr := range successReturns(fn) {
+			if sr == ret {
+				isSuccess = true
+			}
+		}
+		if !isSuccess {
+			continue
+		}
+		if hc, g, ok := fa.errOfHelperCall(ev); ok {
+			if S := fa.errorSummary(g, hc, o, 0); S != nil {
+				disj = append(disj, fAnd(F, S))
+			}
 		}
 	}
 	if isBool {
